@@ -281,6 +281,7 @@ func checkC13(w *World, r *Report) {
 	checkPassSeesParserTokens(w, r)
 	checkKindsComparedForEquality(w, r)
 	checkKindSetsWideEnough(w, r)
+	checkTwinKindsAdvanceAlike(w, r)
 }
 
 func exprArgs(c *ast.CallExpr) string {
@@ -1329,4 +1330,103 @@ func checkKindSetsWideEnough(w *World, r *Report) {
 		})
 	}
 	r.Counts["shifts by a count that receives constants from call sites"] = n
+}
+
+// checkTwinKindsAdvanceAlike — R13.7: a dash on a delimiter changes trimming and nothing else.
+// Where a switch over a token's Type has separate arms for a delimiter kind and for its _TRIM
+// twin, the two arms move the parser's cursor by the same number of steps (statements that
+// increment or assign tokenIndex), counting an arm that falls through as the arm it falls into.
+// An arm that accepts `-%}` but does not step over it leaves the closing delimiter in front of
+// the next construct: the tag parses without the dash and fails (or swallows something) with it.
+func checkTwinKindsAdvanceAlike(w *World, r *Report) {
+	n := 0
+	steps := func(body []ast.Stmt) (int, bool) {
+		cnt := 0
+		ft := false
+		for _, st := range body {
+			if b, ok := st.(*ast.BranchStmt); ok && b.Tok == token.FALLTHROUGH {
+				ft = true
+			}
+			ast.Inspect(st, func(m ast.Node) bool {
+				switch x := m.(type) {
+				case *ast.FuncLit:
+					return false
+				case *ast.IncDecStmt:
+					if sel, ok := x.X.(*ast.SelectorExpr); ok && sel.Sel.Name == "tokenIndex" {
+						cnt++
+					}
+				case *ast.AssignStmt:
+					for _, l := range x.Lhs {
+						if sel, ok := l.(*ast.SelectorExpr); ok && sel.Sel.Name == "tokenIndex" {
+							cnt++
+						}
+					}
+				}
+				return true
+			})
+		}
+		return cnt, ft
+	}
+	for _, fd := range w.sortedDecls() {
+		ast.Inspect(fd.Body, func(nd ast.Node) bool {
+			sw, ok := nd.(*ast.SwitchStmt)
+			if !ok || sw.Tag == nil {
+				return true
+			}
+			// the tag is <something>.Type (possibly via the init statement's variable)
+			tagSel, ok := ast.Unparen(sw.Tag).(*ast.SelectorExpr)
+			if !ok || tagSel.Sel.Name != "Type" {
+				return true
+			}
+			// arms by constant name
+			type arm struct {
+				idx int
+				cc  *ast.CaseClause
+			}
+			arms := map[string]arm{}
+			var clauses []*ast.CaseClause
+			for _, st := range sw.Body.List {
+				cc := st.(*ast.CaseClause)
+				clauses = append(clauses, cc)
+				for _, e := range cc.List {
+					if id, ok := ast.Unparen(e).(*ast.Ident); ok {
+						if c, ok := w.Info.Uses[id].(*types.Const); ok && strings.HasPrefix(c.Name(), "TOKEN_") {
+							arms[c.Name()] = arm{len(clauses) - 1, cc}
+						}
+					}
+				}
+			}
+			effective := func(i int) int {
+				for ; i < len(clauses); i++ {
+					c, ft := steps(clauses[i].Body)
+					if !ft {
+						return c
+					}
+					if c > 0 {
+						return c + func() int { c2, _ := steps(clauses[i+1].Body); return c2 }()
+					}
+				}
+				return 0
+			}
+			for name, a := range arms {
+				if !strings.HasSuffix(name, "_TRIM") {
+					continue
+				}
+				twin, ok := arms[strings.TrimSuffix(name, "_TRIM")]
+				if !ok || twin.cc == a.cc {
+					continue
+				}
+				n++
+				ca, cb := effective(a.idx), effective(twin.idx)
+				construct := "arms for " + strings.TrimSuffix(name, "_TRIM") + " and " + name + " move the cursor alike"
+				if ca == cb {
+					r.ok("R13.7", w.declName(fd), construct, w.pos(a.cc), fmt.Sprintf("%d step(s) each", ca), true)
+				} else {
+					r.bad("R13.7", w.declName(fd), construct, w.pos(a.cc), fmt.Sprintf("the arm for %s moves the cursor %d time(s), the arm for its twin %d time(s): with the dash the closing delimiter is not stepped over (or is stepped over twice), so the tag is read differently with and without whitespace control", name, ca, cb))
+				}
+			}
+			return true
+		})
+	}
+	r.Counts["switches with separate arms for a delimiter and its trimming twin"] = n
 }
